@@ -28,6 +28,14 @@ type Syntax struct {
 	Attr bool
 	// Strings to draw string literals from.
 	Strs []string
+	// CallGen, when set, produces every call expression.
+	CallGen func(d int) *gt.T
+	// BoundedLoops: three-clause loops count a private counter up to a small
+	// bound (bodies cannot name it), so every generated program terminates.
+	BoundedLoops bool
+	// NoMulti suppresses multi-assignment statements.
+	NoMulti bool
+	loopSeq      int
 }
 
 func NewSyntax(r *rand.Rand) *Syntax {
@@ -223,6 +231,9 @@ func (s *Syntax) mapLit(d int) *gt.T {
 }
 
 func (s *Syntax) callExpr(d int) *gt.T {
+	if s.CallGen != nil {
+		return s.CallGen(d)
+	}
 	n := s.R.Intn(4)
 	a := make([]*gt.T, n)
 	for i := range a {
@@ -311,6 +322,9 @@ func (s *Syntax) Stmt(d, ed int, inLoop bool) *gt.T {
 	case 4:
 		return gt.Assign(s.pick(AssignOps[1:]), s.target(ed), s.Expr(ed))
 	case 5:
+		if s.NoMulti {
+			return s.Expr(ed)
+		}
 		n := 2 + r.Intn(2)
 		l := make([]*gt.T, n)
 		rr := make([]*gt.T, 1+r.Intn(3))
@@ -331,6 +345,12 @@ func (s *Syntax) Stmt(d, ed int, inLoop bool) *gt.T {
 		}
 		return t
 	case 8:
+		if s.BoundedLoops {
+			s.loopSeq++
+			ctr := gt.Ident("zz" + string(rune('a'+s.loopSeq%26)) + string(rune('a'+s.loopSeq/26%26)))
+			return gt.For(gt.Assign("=", ctr, gt.Int(0)), gt.Bin("<", gt.Clone(ctr), gt.Int(int64(r.Intn(4)))),
+				gt.Assign("=", gt.Clone(ctr), gt.Bin("+", gt.Clone(ctr), gt.Int(1))), s.Block(d-1, ed, true)...)
+		}
 		var init, cond, loop *gt.T
 		shape := r.Intn(8)
 		if shape&1 != 0 {
